@@ -620,3 +620,97 @@ Proof.
       unfold fin_fault_layout in T2. destruct (fin_fault_emitted q) as [t|]; [discriminate|reflexivity]. }
     unfold fin_pdu_of. rewrite fin_norm_dlen. unfold fin_norm. rewrite R0, F0. reflexivity.
 Qed.
+
+(* K_repack: packing the decoded object gives the original octets *)
+Theorem fin_repack c q : fin_valid c q -> fin_pack (fin_pdu_of c (fin_norm q)) = Ok (fin_layout c q).
+Proof. intros V. rewrite <- fin_norm_layout. apply fin_pack_layout, fin_norm_valid. exact V. Qed.
+
+(* C09: octets behind the PDU do not change the result *)
+Theorem fin_suffix_irrelevant c q s : fin_valid c q -> wf_bytes s ->
+  fin_unpack (fin_layout c q ++ s) = fin_unpack (fin_layout c q).
+Proof.
+  intros V W. rewrite fin_unpack_pack by assumption.
+  pose proof (fin_unpack_pack c q [] V ltac:(constructor)) as E. rewrite app_nil_r in E. symmetry. exact E.
+Qed.
+
+(* ---- equality of the decoded object with the original ---- *)
+Lemma ubf_eqb_refl u : ubf_eqb u u = true.
+Proof. unfold ubf_eqb. rewrite !Z.eqb_refl. reflexivity. Qed.
+Lemma hdr_eqb_refl h : hdr_eqb h h = true.
+Proof. unfold hdr_eqb. rewrite !Z.eqb_refl, !ubf_eqb_refl. reflexivity. Qed.
+Lemma fdir_eqb_refl f : fdir_eqb f f = true.
+Proof. unfold fdir_eqb. rewrite hdr_eqb_refl, Z.eqb_refl. reflexivity. Qed.
+Lemma bytes_eqb_refl b : bytes_eqb b b = true.
+Proof. apply bytes_eqb_eq. reflexivity. Qed.
+
+Lemma resp_valid_value r : resp_valid r ->
+  exists v, fsresp_value r = Ok v /\ fsresp_value (resp_norm r) = Ok v.
+Proof.
+  intros (Ha & Hm & Hn & Hd & Hl & _).
+  destruct (fsresp_pack_layout (fp_action r) (fp_status r) (fp_first r) (fp_second r) (fp_msg r) Ha Hl) as (_ & P & _).
+  rewrite resp_eta in P. eexists. split; [exact P|].
+  assert (Hl' : 1 + len (fs_names_layout (fp_action r) (fp_first r) (if second_name_present (fp_action r) then fp_second r else []))
+                + (1 + len (fp_msg r)) <= 255).
+  { unfold fs_names_layout in *. destruct (second_name_present (fp_action r)); exact Hl. }
+  destruct (fsresp_pack_layout (fp_action r) (fp_status r) (fp_first r)
+              (if second_name_present (fp_action r) then fp_second r else []) (fp_msg r) Ha Hl') as (_ & P' & _).
+  unfold resp_norm. rewrite P'. unfold fs_names_layout. destruct (second_name_present (fp_action r)); reflexivity.
+Qed.
+
+Lemma resps_eq_norm l : Forall resp_valid l -> resps_eq (map resp_norm l) l = Ok true.
+Proof.
+  intros F. unfold resps_eq. rewrite map_length, Nat.eqb_refl. cbn [negb].
+  induction F as [|r l Hr _ IH]; cbn [map resps_eq_elems]; [reflexivity|].
+  destruct (resp_valid_value r Hr) as (v & E1 & E2). unfold fsresp_eq. rewrite E2, E1. cbn [bind].
+  rewrite bytes_eqb_refl. exact IH.
+Qed.
+
+(* a parameter set of the standard: no fault location with condition codes that do not carry one *)
+Definition fin_params_std (q : FinParams) : Prop := fin_fault_emitted q = fn_fault q.
+
+Theorem fin_eq_roundtrip c q : fin_valid c q -> fin_params_std q ->
+  fin_eq (fin_pdu_of c (fin_norm q)) (fin_pdu_of c q) = Ok true.
+Proof.
+  intros V S. pose proof V as (C & Vc & Vd & Vf & Vr & Vl & D).
+  unfold fin_eq, fin_pdu_of. cbn [fin_params fin_fdir]. rewrite fin_norm_dlen, fdir_eqb_refl.
+  unfold fn_eq, fin_norm. cbn [fn_cc fn_dc fn_fs fn_resps fn_fault]. rewrite !Z.eqb_refl. cbn [negb].
+  rewrite resps_eq_norm by exact Vr. cbn [bind negb]. rewrite S.
+  unfold fault_eq. destruct (fn_fault q); [rewrite Z.eqb_refl|]; reflexivity.
+Qed.
+
+(* K_unpack_pack in one statement: constructor, pack, decode (followed by anything), compare, re-pack *)
+Theorem fin_roundtrip c q rest : fin_valid c q -> wf_bytes rest ->
+  exists p b p',
+    fin_new c q = Ok (p, c, q) /\ fin_pack p = Ok b /\ b = fin_layout c q /\
+    fin_packet_len p = len b /\
+    fin_unpack (b ++ rest) = Ok p' /\ fin_params p' = fin_norm q /\
+    (fin_params_std q -> fin_eq p' p = Ok true) /\
+    fin_pack p' = Ok b /\ fin_packet_len p' = len b.
+Proof.
+  intros V W. exists (fin_pdu_of c q), (fin_layout c q), (fin_pdu_of c (fin_norm q)).
+  destruct (fin_data_field_len c q V) as (PL & _).
+  split; [apply fin_new_ok; exact V|]. split; [apply fin_pack_layout; exact V|]. split; [reflexivity|].
+  split; [exact PL|]. split; [apply fin_unpack_pack; assumption|]. split; [reflexivity|].
+  split; [intros S; apply fin_eq_roundtrip; assumption|]. split; [apply fin_repack; exact V|].
+  destruct (fin_data_field_len c (fin_norm q) (fin_norm_valid c q V)) as (PL' & _).
+  rewrite PL', fin_norm_layout. reflexivity.
+Qed.
+
+(* K_too_large / refusals: a value list whose encoding exceeds the 16-bit data field length is
+   refused by the constructor, never truncated *)
+Theorem fin_too_long_refused c q : conf_valid c -> 65535 < fin_dlen c q -> exists e, fin_new c q = Err e.
+Proof.
+  intros C L. assert (Fc : flag (cf_crc c)) by apply C.
+  unfold fin_new. rewrite fdir_new_ok; [|lia|unfold conf_set_dir; cbn [cf_src cf_dst]; apply C]. cbn [bind].
+  assert (S2 : forall n q', fin_dlen c q' = fin_dlen c q ->
+             fin_set_resps {| fin_fdir := fdir_of (conf_set_dir c DIR_TOWARDS_SENDER) DT_FINISHED n; fin_params := q' |}
+               (Some (fn_resps q')) = Err EValue).
+  { intros n q' Eq. unfold fin_set_resps. cbn [fin_fdir fin_params]. rewrite fn_with_resps_id.
+    unfold DIR_TOWARDS_SENDER. rewrite fin_calc_len_spec by exact Fc. rewrite Eq.
+    destruct (fin_dlen c q <=? 65535) eqn:E; [lia|reflexivity]. }
+  destruct (fn_fault q) as [t|] eqn:Ft.
+  - unfold fin_set_fault. cbn [fin_fdir fin_params]. rewrite <- Ft, fn_with_fault_id.
+    unfold DIR_TOWARDS_SENDER. rewrite fin_calc_len_spec by exact Fc.
+    destruct (fin_dlen c q <=? 65535) eqn:E; [lia|]. eexists. reflexivity.
+  - cbn [bind fin_params]. rewrite S2 by reflexivity. eexists. reflexivity.
+Qed.
